@@ -21,6 +21,7 @@ TGet ==
            fresh == Serials \ seen
            p == (IF \A i \in 1..Len(Line.ok) : Line.ok[i] THEN {} ELSE {"invalid_certificate"})
                 \cup (IF Line.err THEN {"refused_valid_target"} ELSE {})
+                \cup (IF "panicked" \in DOMAIN Line /\ Line.panicked THEN {"issuance_panicked"} ELSE {})
                 \cup (IF valid /\ Serials # {cached[h]} THEN {"not_reused"} ELSE {})
                 \cup (IF ~valid /\ ~(Serials \subseteq fresh) THEN {"stale_or_foreign_certificate"} ELSE {})
                 \cup (IF Serials \cap dead # {} THEN {"expired_certificate_served"} ELSE {})
